@@ -57,7 +57,7 @@ def parse_stderr(txt):
 
 def run_verus(gen, modules, rlimit=30, timeout=900, extra=''):
     mods = ' '.join('--verify-module %s' % m for m in modules)
-    cmd = 'verus %s --multiple-errors 40 --num-threads %d --output-json --time-expanded --rlimit %d %s %s' % (gen, NTHREADS, rlimit, mods, extra)
+    cmd = 'verus %s --multiple-errors 40 --num-threads %d --output-json --time-expanded --triggers-mode silent --rlimit %d %s %s' % (gen, NTHREADS, rlimit, mods, extra)
     rc, out, err, wall = sh(cmd, timeout=timeout)
     subprocess.run('pkill -x z3 2>/dev/null', shell=True)
     js = None
